@@ -114,6 +114,8 @@ type stackOpts struct {
 	par          bool
 	issParam     bool
 	ingresses    []string
+	uiLocales    string
+	resource     string
 	rateLimit    *config.RateLimit
 	legacyCookie bool
 }
@@ -232,6 +234,8 @@ func newStack(o stackOpts) (*stack, error) {
 			PostLogoutRedirectURI: "http://wonderwall/loggedout",
 			Provider:              "test",
 			Scopes:                []string{"some-scope"},
+			UILocales:             o.uiLocales,
+			ResourceIndicator:     o.resource,
 		},
 		Session: config.Session{
 			MaxLifetime:       o.maxLifetime,
